@@ -320,4 +320,82 @@ def cases(which):
             return -(G.sum_over(nv, lambda i: v(*(bi + (i,))) * p["b"](i)) +
                      G.sum_over(nh, lambda j: G.fn("softplus", lin(p["W"], p["c"], v, bi, j))) +
                      G.sum_over(na, lambda a: G.fn("softplus", lin(p["U"], p["d"], v, bi, a))))
+    if which in ("observables", "all"):
+        # ---- diagonal observables (C08): SigmaZ for every chain length and batch size -------------------------------------
+        from qucumber.observables import SigmaZ
+        mz = lambda s, t: 2 * G.sum_over(nv, lambda i: s(t, i)) * G.fn("inv", G.to_E(G.size_obj(nv))) - 1      # noqa: E731
+        add("SigmaZ.apply[batch] == mean over sites of the Z eigenvalue (+1 for bit 1, -1 for bit 0)", [("samples", (B, nv), "bits")],
+            lambda samples: SigmaZ().apply(None, samples), lambda samples: G.build((B,), lambda t: mz(samples, t)))
+        add("SigmaZ(absolute=True).apply[batch]", [("samples", (B, nv), "bits")],
+            lambda samples: SigmaZ(absolute=True).apply(None, samples), lambda samples: G.build((B,), lambda t: G.fn("abs", mz(samples, t))))
+
+    if which in ("metrics", "all"):
+        # ---- training statistics without measurement bases (C10): every size of the space and of the data set ---------
+        from qucumber.utils import training_statistics as ts
+
+        def pwf2(W, b, c):
+            from qucumber.nn_states import PositiveWaveFunction
+            return _state(PositiveWaveFunction, rbm_am=binary(W, b, c))
+
+        def cwf2(W, b, c, Wp, bp, cp):
+            from qucumber.nn_states import ComplexWaveFunction
+            return _state(ComplexWaveFunction, rbm_am=binary(W, b, c), rbm_ph=binary(Wp, bp, cp))
+
+        def dm2(W, U, b, c, d, Wp, Up, bp, cp, dp):
+            from qucumber.nn_states import DensityMatrix
+            return _state(DensityMatrix, rbm_am=purification(W, U, b, c, d), rbm_ph=purification(Wp, Up, bp, cp, dp))
+
+        def en(W, b, c, x, s):
+            return -(G.sum_over(nv, lambda i: x(s, i) * b(i)) + G.sum_over(nh, lambda j: G.fn("softplus", lin(W, c, x, (s,), j))))
+
+        def pen(p, x, s):
+            return en(p["W"], p["b"], p["c"], x, s) - G.sum_over(na, lambda q: G.fn("softplus", lin(p["U"], p["d"], x, (s,), q)))
+        N_ = G.dim("N")
+        SP = [("space", (S, nv), "bits")]
+
+        def nll_spec(energy_of):
+            def spec(samples, space, **p):
+                Z = G.sum_over(S, lambda s: G.fn("exp", -energy_of(p, space, s)))
+                return G.build((), lambda: -G.sum_over(N_, lambda t: G.fn("log", G.fn("exp", -energy_of(p, samples, t)) * G.fn("inv", Z))) * G.fn("inv", G.to_E(G.size_obj(N_))))
+            return spec
+        e_bin = lambda p, x, s: en(p["W"], p["b"], p["c"], x, s)      # noqa: E731
+        add("NLL[positive wavefunction, computational basis]", P_BIN + [("samples", (N_, nv), "bits")] + SP,
+            lambda samples, space, **p: ts.NLL(pwf2(**p), samples, space), nll_spec(e_bin))
+        add("NLL[complex wavefunction, computational basis]", P_BIN + P_PH + [("samples", (N_, nv), "bits")] + SP,
+            lambda samples, space, **p: ts.NLL(cwf2(**p), samples, space), nll_spec(e_bin))
+        add("NLL[density matrix, computational basis]", P_PUR + P_PURPH + [("samples", (N_, nv), "bits")] + SP,
+            lambda samples, space, **p: ts.NLL(dm2(**p), samples, space), nll_spec(pen))
+
+        def kl_spec(energy_of, tprob):
+            def spec(target, space, **p):
+                Z = G.sum_over(S, lambda s: G.fn("exp", -energy_of(p, space, s)))
+                return G.build((), lambda: G.sum_over(S, lambda s: tprob(target, s) * G.fn("log", tprob(target, s))) -
+                               G.sum_over(S, lambda s: tprob(target, s) * G.fn("log", G.fn("exp", -energy_of(p, space, s)) * G.fn("inv", Z))))
+            return spec
+        t_wf = lambda t, s: t(0, s) * t(0, s) + t(1, s) * t(1, s)      # noqa: E731
+        t_dm = lambda t, s: t(0, s, s)                                   # noqa: E731
+        add("KL[positive wavefunction, computational basis]", P_BIN + [("target", (2, S), "real")] + SP,
+            lambda target, space, **p: ts.KL(pwf2(**p), target, space), kl_spec(e_bin, t_wf))
+        add("KL[complex wavefunction, computational basis]", P_BIN + P_PH + [("target", (2, S), "real")] + SP,
+            lambda target, space, **p: ts.KL(cwf2(**p), target, space), kl_spec(e_bin, t_wf))
+        add("KL[density matrix, computational basis]", P_PUR + P_PURPH + [("target", (2, S, S), "real")] + SP,
+            lambda target, space, **p: ts.KL(dm2(**p), target, space), kl_spec(pen, t_dm))
+
+        def fid_spec(target, space, **p):
+            Z = G.sum_over(S, lambda s: G.fn("exp", -e_bin(p, space, s)))
+            amp = lambda s: G.fn("exp", -e_bin(p, space, s) / 2)        # noqa: E731
+            if "Wp" in p:
+                ph = lambda s: -en(p["Wp"], p["bp"], p["cp"], space, s) / 2       # noqa: E731
+                re_ = lambda s: amp(s) * G.fn("cos", ph(s))       # noqa: E731
+                im_ = lambda s: amp(s) * G.fn("sin", ph(s))       # noqa: E731
+            else:
+                re_, im_ = amp, (lambda s: G.ZERO)
+            # <target|psi> / sqrt(Z), then squared modulus
+            fr = G.sum_over(S, lambda s: target(0, s) * re_(s) + target(1, s) * im_(s))
+            fi = G.sum_over(S, lambda s: target(0, s) * im_(s) - target(1, s) * re_(s))
+            return G.build((), lambda: (fr * fr + fi * fi) * G.fn("inv", Z))
+        add("fidelity[positive wavefunction]", P_BIN + [("target", (2, S), "real")] + SP,
+            lambda target, space, **p: ts.fidelity(pwf2(**p), target, space), fid_spec)
+        add("fidelity[complex wavefunction]", P_BIN + P_PH + [("target", (2, S), "real")] + SP,
+            lambda target, space, **p: ts.fidelity(cwf2(**p), target, space), fid_spec)
     return out
